@@ -45,6 +45,7 @@ CONSTANTS
   FixDel = TRUE
   FixInit = TRUE
   PreAcked = TRUE
+  Bursts = FALSE
   Sync = FALSE
 VIEW view
 INVARIANTS TypeOK Refines WriteExclusion CloseOnceI NothingLeft StopCancelsI
